@@ -21,8 +21,8 @@ from sim.coordinator import PY, Pool, default_workers, zygote_env  # noqa: E402
 from sim.minimise import Minimiser  # noqa: E402
 
 BUDGET = {  # wall-clock budgets in seconds per phase
-    "quick": {"random": 24, "xproc": 140, "crash_jobs": {"C17": 12, "C18": 30}, "sweep_len": 2},
-    "thorough": {"random": 480, "xproc": 4000, "crash_jobs": {"C17": 10**6, "C18": 10**6}, "sweep_len": 3},
+    "quick": {"diff": 10, "random": 20, "xproc": 140, "crash_jobs": {"C17": 12, "C18": 30}, "sweep_len": 2},
+    "thorough": {"diff": 240, "random": 420, "xproc": 4000, "crash_jobs": {"C17": 10**6, "C18": 10**6}, "sweep_len": 3},
 }
 
 
@@ -242,6 +242,8 @@ def finalize_violation(run, pool, job, res, known):
         tag = str(job.get("run_seed")).replace(":", "_").replace("+", "_")[:80]
         path = os.path.join(rdir, "%s-%s-pair.json" % (run.prop, tag))
         key = viol["detail"]["call"]
+        for p in res["pair"]:
+            p["want_results"] = True
         ra = fresh_interpreter_run(res["pair"][0], run.prop)
         rb = fresh_interpreter_run(res["pair"][1], run.prop, hashseed="321")
         da, db = (ra.get("call_results") or {}).get(key), (rb.get("call_results") or {}).get(key)
